@@ -82,6 +82,7 @@ def fieldTypeLen (s : JStr) : Option Nat :=
 
 def isFieldDesc (s : JStr) : Bool := fieldTypeLen s == some s.length
 def isReturnDesc (s : JStr) : Bool := s == [86] || isFieldDesc s
+def isArrayDesc (s : JStr) : Bool := s.head? == some 91 && isFieldDesc s
 
 partial def methodSlotsGo (s : JStr) (acc : List Nat) : Option (List Nat) :=
   match s with
@@ -107,12 +108,14 @@ def nameValid (kind : String) (s : JStr) : Option Bool :=
   | "method" => some (validMethod s)
   | "param" => some (validUnqualified s)
   | "local" => some (validUnqualified s)
+  | "fdesc" | "mdesc" | "rdesc" => some (validDescriptorNewtype s)
   | _ => none
 
+/-- the *documented* meaning of each name type -/
 def nameSpec (kind : String) (s : JStr) : Option Bool :=
   match kind with
-  | "arr" => some (s.head? == some 91)
-  | "class" => some (s.head? == some 91 || isClassName s)
+  | "arr" => some (isArrayDesc s)
+  | "class" => some (isArrayDesc s || isClassName s)
   | "obj" => some (isClassName s)
   | "field" | "param" | "local" => some (isIdent s)
   | "method" => some (isMethodIdent s)
@@ -219,7 +222,26 @@ def handleC18 (op : String) (args : List Sexp) : Option Ans :=
     let s ← toJStr? s
     let a ← nameValid k s
     let b ← nameSpec k s
-    pure (if a == b then passT else failT k)
+    -- proved domain of `valid_arr_doc_partial` / `valid_class_doc_partial` (`ArrNameDomain`)
+    pure (if (k == "arr" || k == "class") && s.head? == some 91 && !isArrayDesc s then oodT
+      else if a == b then passT else failT k)
+  | "oracle-join-split", [p, i] => do
+    let p ← toJStr? p; let i ← toJStr? i
+    pure (if !validObj p || !validUnqualified i || i.contains 36 then oodT else
+      let j := InnerNames.join p i
+      if !validObj j then failT "join_invalid"
+      else if InnerNames.split j == some (p, i) then passT else failT "differs")
+  | "oracle-dimension", [s] => do
+    let s ← toJStr? s
+    pure (if !isArrayDesc s || !validArr s then oodT else
+      if dimension s == some (s.takeWhile (· == 91)).length then passT else failT "dimension")
+  | "oracle-from-class", [s] => do
+    let s ← toJStr? s
+    pure (if !validClass s then oodT
+      else if isArrayDesc s then (if fromClass s == s then passT else failT "arr")
+      else if isClassName s then
+        (if fromClass s == 76 :: s ++ [59] && parseField (fromClass s) == some (.obj s) then passT else failT "obj")
+      else oodT)
   | "oracle-split-join", [s] => do
     let s ← toJStr? s
     pure (if !validObj s then oodT else
